@@ -142,11 +142,12 @@ class Faulty:
         return EvaluatorResult(objectives=objectives, constraints=constraints)
 
 
-def analyse(calls: list[dict[str, Any]], config: Any, transforms: Any, emap: Any, fmap: Any, allow_nan: bool) -> list[str]:
+def analyse(calls: list[dict[str, Any]], config: Any, transforms: Any, emap: Any, fmap: Any, allow_nan: bool, rms_requested: int) -> list[str]:
     """Per evaluator call: 'ok' | 'threshold' (results exist, too few) | 'abort' (filter/estimator abort) | 'undefined'."""
     fn = ensemble_fn()
-    rms = config.realizations.realization_min_success
-    pms = config.gradient.perturbation_min_success
+    # thresholds as REQUESTED in the case (clamped), not as the validated configuration reports them
+    rms = min(rms_requested, config.realizations.weights.size)
+    pms = 1
     n_real = config.realizations.weights.size
     out = []
     cached: dict[str, Any] | None = None  # last functions-only evaluation: (x bytes, failed_f)
@@ -170,7 +171,7 @@ def analyse(calls: list[dict[str, Any]], config: Any, transforms: Any, emap: Any
                 values[:, :2] = transforms.objectives.to_optimizer(values[:, :2])
             if transforms is not None and transforms.nonlinear_constraints is not None:
                 values[:, 2:] = transforms.nonlinear_constraints.to_optimizer(values[:, 2:])
-            refc = c01.reference(config, values, failed_f, 2, emap, fmap)
+            refc = c01.reference(config, values, failed_f, 2, emap, fmap, rms=rms_requested)
             s = _classify_functions(refc, failed_f, rms, allow_nan, config, fmap, emap)
             status = _worst(status, s)
             failed_f_last, values_last, refc_last = failed_f, values, refc
@@ -319,7 +320,7 @@ def judge_run(case: dict[str, Any], run: dict[str, Any]) -> Judgement:
     driver = case["driver"]
     calls = run["calls"]
     config = validate(run["config"], run["transforms"])
-    statuses = analyse(calls, config, run["transforms"], run["emap"], run["fmap"], run["allow_nan"])
+    statuses = analyse(calls, config, run["transforms"], run["emap"], run["fmap"], run["allow_nan"], case["rms"])
     j.transitions = len(calls)
     injected = any(c["raise"] for c in calls)
     finished_code = "EVALUATION_STEP_FINISHED" if driver == "evaluator" else "OPTIMIZER_STEP_FINISHED"
@@ -402,6 +403,8 @@ def configs(tier: str) -> list[dict[str, Any]]:
         for est in ("mean", "stddev", "merge"):
             for t in TRANSFORMS:
                 for rms in (0, 1, R):
+                    if tier == "quick" and est == "merge" and (t != "none" or flt not in ("none", "sort-objective")):
+                        continue  # quick: the merged estimator on the untransformed configurations with two filter settings
                     out.append({"filter": flt, "estimator": est, "transforms": t, "rms": rms})
     return out
 
